@@ -2,6 +2,7 @@ package props
 
 import (
 	"bytes"
+	"encoding/base64"
 	"fmt"
 	"math/big"
 	"strconv"
@@ -198,7 +199,7 @@ func trunc(s string, n int) string {
 
 // ---------- layer 2: artifact state x strategy product
 
-var c20States = []string{"absent", "cert+key", "cert+csr", "key-only", "cert-only", "garbage", "hash-midfile", "truncated-block", "hash-only", "cert+badkey", "empty", "cert+paddedkey", "cert+shortkey"}
+var c20States = []string{"absent", "cert+key", "cert+csr", "key-only", "cert-only", "garbage", "hash-midfile", "truncated-block", "hash-only", "cert+badkey", "empty", "cert+paddedkey", "cert+shortkey", "long-hash", "short-hash", "bad-hash", "cert+sec1key"}
 
 type c20Cell struct {
 	Root, Sub string // artifact states
@@ -237,6 +238,14 @@ func c20Artifact(state string, certDER, keyDER []byte, hash string) []byte {
 		return append(append(h, crt...), bad...)
 	case "empty":
 		return []byte{}
+	case "long-hash": // well-formed base64 of more than 20 bytes
+		return append(append([]byte("#HASH:"+base64.StdEncoding.EncodeToString(bytes.Repeat([]byte{7}, 33))+"\n"), crt...), key...)
+	case "short-hash":
+		return append(append([]byte("#HASH:AQID\n"), crt...), key...)
+	case "bad-hash":
+		return append(append([]byte("#HASH:@@@not base64@@@\r\n"), crt...), key...)
+	case "cert+sec1key":
+		return append(append(h, crt...), core.PemBlock("EC PRIVATE KEY", []byte{0x30, 0x0a, 2, 1, 1, 4, 5, 1, 2, 3, 4, 5})...)
 	case "cert+paddedkey", "cert+shortkey":
 		// the same key in another legal PKCS#8 shape: scalar zero-padded beyond / stripped below the fixed width
 		if xk, err := xref.ParsePKCS8(keyDER); err == nil && xk.Kind == "ec" {
@@ -260,6 +269,10 @@ func checkC20Cell(c c20Cell) *core.Failure {
 		root.Validity = &core.Validity{From: "2020-01-01", Duration: "9000y"}
 	case "past":
 		sub.Validity = &core.Validity{From: "2001-01-01", Until: "2002-01-01"}
+	case "late-from":
+		// only a start date: the default lifetime carries the end beyond year 9999
+		sub.Validity = &core.Validity{From: "9997-06-01"}
+		root.Validity = &core.Validity{From: "9999-12-31"}
 	}
 	w := World{Ents: []core.Entity{root, sub}}
 	if c20Good.rootCert == nil {
@@ -433,7 +446,7 @@ func fuzzSeedsPem() [][]byte {
 func TestC20(t *testing.T) {
 	r := core.Start(t, "C20")
 	defer r.Finish()
-	r.Rule = "(1) hostile substitution: a schema-valid certificate config (subject, validity, unique ids, 0-6 extensions of all kinds incl. admission, manipulations) or profile from the C06/C07/C16 generators is rendered as a document, ONE scalar slot is replaced by a value from a pool of ~90 hostile values or removed together with its key / list element (over-long and malformed OIDs, 40-digit integers, impossible dates, absurd durations, broken base64, wrong JSON types, empty and 64 KiB strings, NUL/BOM, #hex subject values, YAML anchors/aliases/merge keys/tags), and the directory (root + mutated entity + child) is opened, planned and signed under four strategies. (2) exhaustive product: root and subordinate artifact state in {absent, cert+key, cert+CSR, key only, cert only, garbage, #HASH marker mid-file, truncated block, hash only, cert+unusable key, empty, cert+zero-padded key scalar, cert+stripped key scalar} x 32 strategies x config in {plain, validity beyond year 9999, expired}. (3) raw bytes: random and mutated bytes as .yaml/.json and .pem contents in-process; in the thorough tier additionally three native coverage-guided go-fuzz campaigns (config bytes, pem bytes, config+pem pair) seeded from the repository's examples. Oracle: every entry point runs under recover(); a panic is a violation; an unrepresentable OID in any OID slot must not lead to an issued certificate. Non-trivial = substitution that still parses as YAML with a version key, or a cell that reaches signing, or bytes containing a PEM armour line / version key; distinct by input."
+	r.Rule = "(1) hostile substitution: a schema-valid certificate config (subject, validity, unique ids, 0-6 extensions of all kinds incl. admission, manipulations) or profile from the C06/C07/C16 generators is rendered as a document, ONE scalar slot is replaced by a value from a pool of ~90 hostile values or removed together with its key / list element (over-long and malformed OIDs, 40-digit integers, impossible dates, absurd durations, broken base64, wrong JSON types, empty and 64 KiB strings, NUL/BOM, #hex subject values, YAML anchors/aliases/merge keys/tags), and the directory (root + mutated entity + child) is opened, planned and signed under four strategies. (2) exhaustive product: root and subordinate artifact state in {absent, cert+key, cert+CSR, key only, cert only, garbage, #HASH marker mid-file, truncated block, hash only, cert+unusable key, empty, cert+zero-padded key scalar, cert+stripped key scalar, over-long / short / malformed stored hash, cert+SEC1 key block} x 32 strategies x config in {plain, validity beyond year 9999 by duration, by a late from date alone, expired}. (3) raw bytes: random and mutated bytes as .yaml/.json and .pem contents in-process; in the thorough tier additionally three native coverage-guided go-fuzz campaigns (config bytes, pem bytes, config+pem pair) seeded from the repository's examples. Oracle: every entry point runs under recover(); a panic is a violation; an unrepresentable OID in any OID slot must not lead to an issued certificate. Non-trivial = substitution that still parses as YAML with a version key, or a cell that reaches signing, or bytes containing a PEM armour line / version key; distinct by input."
 	r.Assumptions = []string{"errors, skipped files and successful runs are all acceptable outcomes; only panics (and issued certificates for unrepresentable OIDs) fail", "native fuzzing cannot be seeded; its saved crasher is the reproducible unit"}
 	wrapSubst := func(c c20Subst) *core.Failure {
 		key := ""
@@ -469,7 +482,7 @@ func TestC20(t *testing.T) {
 	// (2) exhaustive product
 	i := 0
 	r.Exhaustive = false
-	for _, cfg := range []string{"plain", "huge-duration", "past"} {
+	for _, cfg := range []string{"plain", "huge-duration", "past", "late-from"} {
 		for _, rs := range c20States {
 			for _, ss := range c20States {
 				for strat := 0; strat < 32; strat++ {
